@@ -240,6 +240,10 @@ func genSelCfg(r *rand.Rand) selCfg {
 			}
 		}
 	}
+	if r.Intn(6) == 0 {
+		// an invalid weight in one position (the selector must not let it act: negative weights would invert a metric)
+		c.W[r.Intn(4)] = vrand.Pick(r, []float64{-0.2, -1, -0.05, math.NaN(), math.Inf(1)})
+	}
 	c.MinChance = vrand.Pick(r, []float64{0.01, 0.01, 0.01, 0.001, 0.05, 0.1, 0.3, 0.000001})
 	adapt := func(lo, hi, spanLo, spanHi float64) (string, [2]float64) {
 		switch vrand.Weighted(r, []int{40, 40, 16, 4}) {
